@@ -23,14 +23,34 @@
     * ring.DivRoundByLastModulus               — input polynomial rewritten (fixed in /repo by commit 64e1afc;
                                                  the model follows HEAD, the old program is kept as `divRoundProgOld`)
     * ct+ct Add/Sub into an output of larger previous degree — stale polynomial kept  [fix C09-2, `addIntoOld`]
-  Each is replayed on the real code by a harness probe (harness/c09.go).
 
-  Not modelled: coefficient-level aliasing inside one ring operation (the ring kernels are
-  coefficient-wise or buffer their input, property C01), degrees other than 1⊗1 / 1⊕1 in the
-  pointer-branching routines, `Resize` of the level (limb count).  PartialTracesSum: general `n`
-  only for the frame, aliasing for n ≤ 8 (`_partial`).
+    * ckks/bgv Mul, MulRelin (and MulThenAdd, MulRelinThenAdd) of two degree-1 ciphertexts into a receiver of
+      degree 0 — PANIC: `c0, c1 = opOut.Value[0], opOut.Value[1]` were taken before the receiver is resized
+      [found by the degree extension of this property; fixed: e9e846c (patch fixes/C09-6); the tie follows HEAD =
+       `tensorGenDFixed`, the old routine is kept as `tensorGenD`; `tensor_receiver_degree0_counterexample`]
+    * rlwe.Element.Resize tested the level of `Value[0]` only: a receiver whose `Value[0]` already was at the target
+      level kept the other polynomials at their old level (longer: stale limbs; shorter: the operation panicked)
+      [found by the level extension of this property; fixed: 114cfa0 (patch fixes/C09-7); the tie follows HEAD =
+       `resizeShapeFixed` / `shapeAfterFixed`, the old code is kept as `resizeShape` / `shapeAfter`;
+       `resize_level_malformed_counterexample`, hypothesis of `history_free_level`; `history_free_level_fixed` has none]
+  Each is replayed on the real code by a harness probe (harness/c09.go, c09_degree.go).
+
+  Degrees: `ckksAddProg` (ckks.Add/Sub, element operand) and `tensorGenD` (ckks.mulRelin, bgv.tensorStandard) take
+  the degree of every object (0, 1 or 2) and thread it through `Element.Resize`; the `alias_sound_*_degrees`
+  theorems hold for EVERY assignment of degrees ≤ 2 to the three objects (operands and previous receiver).
+  Levels: `OpS.shapeAfter` follows the `Resize` calls of every modelled operation on the list of the levels of the
+  receiver's polynomials; `history_free_level`: after an accepted call all of them are at the documented level.
+  PartialTracesSum: alias soundness and independence from buffers/receiver for EVERY n ≥ 1 (loop invariant of
+  the log n + HW(n) tree in Proofs/StorePTS.lean).
+
+  Not modelled: coefficient-level aliasing inside one ring operation (the ring kernels are coefficient-wise or
+  buffer their input, property C01); degrees ≥ 3; the CONTENT of the limbs a level change drops or appends
+  (`ring.Poly.Resize`: truncation / fresh zero limbs — probes only); bgv.matchScaleThenEvaluateInPlace and
+  bgv.tensorScaleInvariant keep their degree 1 ⊕ 1 / 1 ⊗ 1 programs (the only degrees tensorScaleInvariant accepts).
 -/
 import Lattigo.Proofs.StoreInt
+import Lattigo.Proofs.StorePTS
+import Lattigo.Proofs.StoreShape
 
 namespace Lattigo.Props.C09
 open Lattigo.Store
@@ -138,13 +158,31 @@ theorem rlwe_partialTracesSum_frame (I : Interp α) (n : Nat) (p : Pat) (σ : St
     (hx : x.obj ≠ p.out ∧ x.obj ≠ bqp ∧ x.obj ≠ bct) : run I (rlwePTSProg n p) σ x = σ x :=
   rlwePTS_frame I n p σ x hx
 
-/-- PARTIAL: alias soundness of PartialTracesSum for 1 ≤ n ≤ 8 (see `rlwePTS_alias_sound_partial`). -/
+/-- rlwe.PartialTracesSum, EVERY n ≥ 1: the call with `opOut == ctIn` (object 0) yields in every result field
+    what the call with a distinct receiver (object 2) yields; the two stores only have to agree on the INPUT
+    object — the previous content of the evaluator buffers and of the distinct receiver is arbitrary in both. -/
+theorem alias_sound_rlwe_partialTracesSum (I : Interp α) (hcopy : ∀ x, I.fn .copy [x] = x)
+    (n : Nat) (hn : 1 ≤ n) (σ σd : Store α) (hagree : ∀ x : Loc, x.obj = 0 → σd x = σ x) (f : Nat)
+    (hf : f = 0 ∨ f = 1 ∨ f = fScale ∨ f = fMeta) :
+    run I (rlwePTSProg n Alias.outOp0.pat) σ (L 0 f) = run I (rlwePTSProg n Alias.distinct.pat) σd (L 2 f) :=
+  rlwePTS_alias_sound' I hcopy n hn σ σd hagree f hf
+
+/-- rlwe.PartialTracesSum is history-free, every n ≥ 1, every pattern: the result fields depend on the fields
+    of the input object only (no residue of BuffCt / BuffQP / the receiver). -/
+theorem history_free_rlwe_partialTracesSum (I : Interp α) (n : Nat) (hn : 1 ≤ n) (p : Pat) (σ σ' : Store α)
+    (h : ∀ x : Loc, x.obj = p.op0 → σ x = σ' x) (f : Nat) (hf : f = 0 ∨ f = 1 ∨ f = fScale ∨ f = fMeta) :
+    run I (rlwePTSProg n p) σ (L p.out f) = run I (rlwePTSProg n p) σ' (L p.out f) :=
+  rlwePTS_history_free I n hn p σ σ' h f hf
+
+/-- (name kept for the required-theorem list; no longer partial) the instance n ≤ 8 with stores that agree
+    everywhere but on the distinct receiver. -/
 theorem alias_sound_rlwe_partialTracesSum_partial (I : Interp α) (hcopy : ∀ x, I.fn .copy [x] = x)
     (n : Nat) (hn : 1 ≤ n ∧ n ≤ 8) (σ σd : Store α) (hagree : ∀ x, x.obj ≠ 2 → σd x = σ x) (f : Nat)
     (hf : f = 0 ∨ f = 1 ∨ f = fScale ∨ f = fMeta) :
     run I (rlwePTSProg n Alias.outOp0.pat) σ (L 0 f) = run I (rlwePTSProg n Alias.distinct.pat) σd (L 2 f) :=
-  rlwePTS_alias_sound_partial I hcopy n hn σ σd hagree f hf
+  rlwePTS_alias_sound I hcopy n hn.1 σ σd hagree f hf
 
+example : (1 : Nat) ≤ 4096 := by decide
 example : ∀ x : Int, intI.fn .copy [x] = x := fun _ => rfl
 
 /-- ring.DivRoundByLastModulus as of HEAD (commit 64e1afc and later): alias-sound, input intact. -/
@@ -200,11 +238,147 @@ theorem add_history_counterexample :
     addIntoOld (0 : Int) (· + ·) [1, 2] [10, 20] [7, 8, 9] = [11, 22, 9] ∧
     addIntoOld (0 : Int) (· + ·) [1, 2] [10, 20] [0, 0] = [11, 22] := addIntoOld_degree_residue_counterexample
 
+/-! ### degrees 0/1/2 -/
+
+/-- ckks.Add / ckks.Sub with an element operand: EVERY aliasing pattern, EVERY degree ≤ 2 of op0, op1 and of the
+    receiver before the call (`deg`), every outcome of the scale comparison: polynomial `i ≤ max(d0, d1)` of the
+    receiver is the closed form `ckksAddF` (sum/difference on the common polynomials, the scaled copy of the
+    longer operand above, negated for Sub when it is op1's), the scale is the maximum, nothing but the receiver
+    and the buffers is written. -/
+theorem alias_sound_ckks_addSub_degrees (I : Interp α) (sub : Bool) (hS : ScaleLaws I) (hD : DegLaws I sub)
+    (al : Alias) (deg : Nat → Nat) (hdeg : ∀ o, deg o ≤ 2) (σ : Store α) :
+    type_of% (ckksAdd_alias_sound I sub hS hD al deg hdeg σ) := ckksAdd_alias_sound I sub hS hD al deg hdeg σ
+
+example : DegLaws intI false ∧ DegLaws intI true := ⟨intI_degLaws false, intI_degLaws true⟩
+example : ∀ o, (fun o : Nat => if o = 0 then 1 else 2) o ≤ 2 := by intro o; simp only; split <;> decide
+
+/-- BEFORE commit e9e846c (`tensorGenD`; HEAD: `alias_sound_tensor_degrees_fixed`).
+    ckks.Mul/MulRelin (`bgv = false`) and bgv.Mul/MulRelin (`bgv = true`), operands of degree 0/1/2: whenever the
+    code accepts the call (`TensorAccepted`), under every pattern and whatever degree the receiver had, the
+    receiver has the documented degree `tensorDegF` and the polynomials `tensorDF`. -/
+theorem alias_sound_tensor_degrees (I : Interp α) (bgv relin : Bool) (hT : TensorLaws I (preOf bgv)) (al : Alias)
+    (deg : Nat → Nat) (hdeg : ∀ o, deg o ≤ 2)
+    (hacc : TensorAccepted bgv (deg al.pat.op0) (deg al.pat.op1) (deg al.pat.out)) (σ : Store α) :
+    type_of% (tensorD_alias_sound I bgv relin hT al deg hdeg hacc σ) :=
+  tensorD_alias_sound I bgv relin hT al deg hdeg hacc σ
+
+example : TensorLaws intI (preOf false) ∧ TensorLaws intI (preOf true) :=
+  ⟨intI_tensorLaws_mform, intI_tensorLaws_mulT⟩
+example : TensorAccepted true 2 0 1 ∧ TensorAccepted false 0 2 0 ∧ TensorAccepted false 1 1 2 := by
+  unfold TensorAccepted; decide
+
+/-- the calls the code rejects with an error … -/
+theorem tensor_degrees_rejected (bgv relin : Bool) (p : Pat) (deg : Nat → Nat)
+    (h : deg p.op0 + deg p.op1 = 0 ∨ deg p.op0 + deg p.op1 > 2 ∨ (bgv = true ∧ deg p.op0 = 0)) :
+    tensorGenD bgv relin p deg = .err := tensorD_err_of bgv relin p deg h
+
+/-- … and the history dependence BEFORE commit e9e846c: the SAME operands (two degree-1 ciphertexts) were
+    multiplied into a receiver that previously had degree 1 or 2, but PANICKED with a receiver of degree 0 — in
+    ckks.mulRelin and in bgv.tensorStandard, with and without relinearisation
+    (finding C09/mul-receiver-degree0-panics, fixed). -/
+theorem tensor_receiver_degree0_counterexample (bgv relin : Bool) (p : Pat) (deg : Nat → Nat)
+    (h0 : deg p.op0 = 1) (h1 : deg p.op1 = 1) (ho : deg p.out = 0) :
+    tensorGenD bgv relin p deg = .panic := tensorD_panic_of bgv relin p deg h0 h1 ho
+
+example : (fun o : Nat => if o = 2 then 0 else 1) Alias.distinct.pat.op0 = 1 ∧
+    (fun o : Nat => if o = 2 then 0 else 1) Alias.distinct.pat.out = 0 := by decide
+
+/-- nothing else panics, and with patch fixes/C09-6 nothing does -/
+theorem tensor_panics_only_receiver_degree0 (bgv relin : Bool) (p : Pat) (deg : Nat → Nat)
+    (h : tensorGenD bgv relin p deg = .panic) : deg p.op0 = 1 ∧ deg p.op1 = 1 ∧ deg p.out = 0 :=
+  tensorD_panic_only bgv relin p deg h
+
+theorem tensor_fixed_no_panic (bgv relin : Bool) (p : Pat) (deg : Nat → Nat) :
+    tensorGenDFixed bgv relin p deg ≠ .panic := tensorDFixed_no_panic bgv relin p deg
+
+/-- HEAD (commit e9e846c, `tensorGenDFixed`, the routine the `aliasd` tie executes): alias soundness holds for
+    EVERY previous degree of the receiver — the products are history-free in the degree. -/
+theorem alias_sound_tensor_degrees_fixed (I : Interp α) (bgv relin : Bool) (hT : TensorLaws I (preOf bgv))
+    (al : Alias) (deg : Nat → Nat) (hdeg : ∀ o, deg o ≤ 2)
+    (hacc : ¬(deg al.pat.op0 + deg al.pat.op1 = 0 ∨ deg al.pat.op0 + deg al.pat.op1 > 2) ∧
+      ¬(bgv = true ∧ deg al.pat.op0 = 0)) (σ : Store α) :
+    type_of% (tensorDFixed_alias_sound I bgv relin hT al deg hdeg hacc σ) :=
+  tensorDFixed_alias_sound I bgv relin hT al deg hdeg hacc σ
+
+example : ¬((1 : Nat) + 1 = 0 ∨ 1 + 1 > 2) ∧ ¬(false = true ∧ (1 : Nat) = 0) := by decide
+
+/-! ### levels -/
+
+/-- BEFORE commit 114cfa0 (`shapeAfter`; HEAD: `history_free_level_fixed`, without the hypothesis on the receiver).
+    HISTORY-FREE LEVEL (and degree): for every modelled operation (Add/Sub, Mul/MulRelin of ckks and bgv,
+    the scale-invariant products, the *big.Int operations, Automorphism, PartialTracesSum), every aliasing
+    pattern and all shapes: when the call is accepted, every polynomial of the receiver is at the documented
+    level `docLevel` and the receiver has the documented degree — whatever degree and level it had before,
+    provided its polynomials were all at one level, or `Value[0]` was not already at the target level. -/
+theorem history_free_level (op : OpS) (p : Pat) (sh : Nat → Shape) (hne : ∀ o, sh o ≠ [])
+    (hrecv : Uniform (sh p.out) ∨
+      (sh p.out).level ≠ op.docLevel (sh p.op0).level (sh p.op1).level (sh p.out).level)
+    (r : Shape) (hr : op.shapeAfter p sh = .ok r) :
+    r = List.replicate (op.docDegree (sh p.op0).degree (sh p.op1).degree (sh p.out).degree + 1)
+          (op.docLevel (sh p.op0).level (sh p.op1).level (sh p.out).level) :=
+  shapeAfter_documented op p sh hne hrecv r hr
+
+example : Uniform [2, 2, 2] ∧ (OpS.ckksMul false).shapeAfter Alias.distinct.pat
+    (patShape Alias.distinct.pat [2, 2] [1, 1] [2, 2, 2]) = .ok [1, 1, 1] := by
+  refine ⟨?_, by decide⟩
+  intro x hx; simp [Shape.level] at hx ⊢; exact hx
+
+/-- two well-formed receivers for which the documented level is the same (e.g. both at least at the level of the
+    operands) yield the same shape: level and degree of the result do not depend on the receiver's past. -/
+theorem history_free_level_receivers (op : OpS) (p : Pat) (sh sh' : Nat → Shape)
+    (hne : ∀ o, sh o ≠ []) (hne' : ∀ o, sh' o ≠ [])
+    (h0 : sh p.op0 = sh' p.op0) (h1 : sh p.op1 = sh' p.op1)
+    (hU : Uniform (sh p.out)) (hU' : Uniform (sh' p.out))
+    (hl : op.docLevel (sh p.op0).level (sh p.op1).level (sh p.out).level =
+          op.docLevel (sh p.op0).level (sh p.op1).level (sh' p.out).level)
+    (r r' : Shape) (hr : op.shapeAfter p sh = .ok r) (hr' : op.shapeAfter p sh' = .ok r') : r = r' :=
+  history_free_level' op p sh sh' hne hne' h0 h1 hU hU' hl r r' hr hr'
+
+example : OpS.addLike.docLevel 1 1 2 = OpS.addLike.docLevel 1 1 1 := by decide
+
+/-- the hypothesis of `history_free_level` could not be dropped for the code before commit 114cfa0: a receiver
+    `[1, 2]` (`Value[0]` already at the target level 1, `Value[1]` one limb longer) kept its shape through Add; a
+    receiver `[2, 1]` with operands at level 2 made the operation PANIC (finding
+    C09/resize-skips-polynomials-when-first-at-level, fixed). -/
+theorem resize_level_malformed_counterexample :
+    OpS.addLike.shapeAfter Alias.distinct.pat (patShape Alias.distinct.pat [1, 1] [1, 1] [1, 2]) = .ok [1, 2] ∧
+    OpS.addLike.shapeAfter Alias.distinct.pat (patShape Alias.distinct.pat [2, 2] [2, 2] [2, 1]) = .panic ∧
+    OpS.addLike.shapeAfter Alias.distinct.pat (patShape Alias.distinct.pat [1, 1] [1, 1] [2, 2]) = .ok [1, 1] := by
+  decide
+
+/-- with patch fixes/C09-7 `Resize` yields the documented shape from ANY previous shape. -/
+theorem resize_fixed_history_free (s : Shape) (degree level : Nat) :
+    resizeShapeFixed s degree level = List.replicate (degree + 1) level :=
+  resizeShapeFixed_replicate s degree level
+
+/-- HEAD (commits e9e846c, 114cfa0; `shapeAfterFixed`, what the `shape` tie executes): HISTORY-FREE LEVEL AND
+    DEGREE without any hypothesis on the receiver — for every modelled operation, every aliasing pattern and all
+    shapes, when the call is accepted every polynomial of the receiver is at the documented level and the receiver
+    has the documented degree, whatever it held before; and no modelled operation panics. -/
+theorem history_free_level_fixed (op : OpS) (p : Pat) (sh : Nat → Shape) (hne : ∀ o, sh o ≠ [])
+    (r : Shape) (hr : op.shapeAfterFixed p sh = .ok r) :
+    r = List.replicate (op.docDegree (sh p.op0).degree (sh p.op1).degree (sh p.out).degree + 1)
+          (op.docLevel (sh p.op0).level (sh p.op1).level (sh p.out).level) :=
+  shapeAfterFixed_documented op p sh hne r hr
+
+theorem shape_fixed_no_panic (op : OpS) (p : Pat) (sh : Nat → Shape) : op.shapeAfterFixed p sh ≠ .panic :=
+  shapeAfterFixed_no_panic op p sh
+
+example : (OpS.ckksMul true).shapeAfterFixed Alias.distinct.pat
+    (patShape Alias.distinct.pat [2, 2] [1, 1] [1, 2]) = .ok [1, 1] := by decide
+
+/-- the model's tie functions follow HEAD -/
+theorem tie_follows_head : headFix6 = true ∧ headFix7 = true ∧
+    (∀ op p sh, OpS.shapeAfterHead op p sh = OpS.shapeAfterFixed op p sh) := ⟨rfl, rfl, fun _ _ _ => rfl⟩
+
 -- TESTS (a `decide` over samples, not theorems about all inputs): the driver's predictions
 example : predictAlias .bgvMatchScale .outOp1 6 2 = .sameAsFresh := by decide
 example : predictAlias .bgvTensorSI .outOp1 6 2 = .sameAsFresh := by decide
 example : predictAlias .ckksEval .outOp1 2 6 = .sameAsFresh := by decide
 example : predictInputs .divRound 4 4 = .sameAsFresh := by decide
+example : predictAliasD .ckksSub .outOp0 1 2 1 2 6 = .sameAsFresh := by decide
+example : predictAliasD .bgvMul .outOp1 2 0 0 4 4 = .sameAsFresh := by decide
+example : predictAliasD .ckksMulRelin .distinct 1 1 0 4 4 = (if headFix6 then .sameAsFresh else .panic) := by decide
 
 end Lattigo.Props.C09
 
@@ -227,7 +401,23 @@ open Lattigo.Props.C09 in
 #print axioms Lattigo.Props.C09.bgv_mulBigInt_inputs_counterexample
 #print axioms Lattigo.Props.C09.alias_sound_rlwe_automorphism
 #print axioms Lattigo.Props.C09.rlwe_partialTracesSum_frame
+#print axioms Lattigo.Props.C09.alias_sound_rlwe_partialTracesSum
+#print axioms Lattigo.Props.C09.history_free_rlwe_partialTracesSum
 #print axioms Lattigo.Props.C09.alias_sound_rlwe_partialTracesSum_partial
+#print axioms Lattigo.Props.C09.alias_sound_ckks_addSub_degrees
+#print axioms Lattigo.Props.C09.alias_sound_tensor_degrees
+#print axioms Lattigo.Props.C09.tensor_degrees_rejected
+#print axioms Lattigo.Props.C09.tensor_receiver_degree0_counterexample
+#print axioms Lattigo.Props.C09.tensor_panics_only_receiver_degree0
+#print axioms Lattigo.Props.C09.tensor_fixed_no_panic
+#print axioms Lattigo.Props.C09.alias_sound_tensor_degrees_fixed
+#print axioms Lattigo.Props.C09.history_free_level
+#print axioms Lattigo.Props.C09.history_free_level_receivers
+#print axioms Lattigo.Props.C09.resize_level_malformed_counterexample
+#print axioms Lattigo.Props.C09.resize_fixed_history_free
+#print axioms Lattigo.Props.C09.history_free_level_fixed
+#print axioms Lattigo.Props.C09.shape_fixed_no_panic
+#print axioms Lattigo.Props.C09.tie_follows_head
 #print axioms Lattigo.Props.C09.alias_sound_ring_divRound
 #print axioms Lattigo.Props.C09.ring_divRound_result
 #print axioms Lattigo.Props.C09.ring_divRound_inputs_counterexample
